@@ -41,7 +41,13 @@ func (c *PC) PrincipalComponents(a mat.Matrix, weights []float64) (ok bool) {
 
 	c.svd, c.ok = svdFactorizeCentered(c.svd, a, weights)
 	if c.ok {
-		c.weights = append(c.weights[:0], weights...)
+		if weights == nil {
+			// Do not keep the empty, but non-nil, remainder of
+			// the weights of a previous weighted analysis.
+			c.weights = nil
+		} else {
+			c.weights = append(c.weights[:0], weights...)
+		}
 	}
 	return c.ok
 }
